@@ -32,7 +32,7 @@ PROPS = {
 
 # additional stages of the thorough tier
 THOROUGH = {
-    "C01": ["mc_core", "mc_three", "mc_two_arrays"], "C02": ["mc_core"], "C03": ["mc_crash"], "C04": ["mc_core", "mc_two_arrays"],
+    "C01": ["mc_core", "mc_three", "mc_two_arrays"], "C02": ["mc_core", "mc_cache"], "C03": ["mc_crash"], "C04": ["mc_core", "mc_two_arrays"],
     "C05": ["mc_core", "selftest_binding"], "C06": ["mc_core", "mc_two_arrays"], "C07": ["mc_resolve"], "C08": ["mc_resolve", "mc_travel", "mc_objapi"],
     "C09": ["mc_crash"], "C10": ["mc_damage"], "C11": ["mc_crash"], "C12": ["mc_resolve", "specmutants"], "C13": ["mc_core", "mc_three"],
     "C14": ["mc_travel"], "C15": ["mc_resolve"], "C16": [], "C17": [], "C18": [], "C19": [],
@@ -491,6 +491,7 @@ STAGES = {"hist_random": st_hist_random, "fn_merge": fn_stage("merge"), "fn_diff
           "mc_damage": mc_stage("MC_damage.cfg", 300, 4000, 0, 0, workers=14), "mc_two_arrays": mc_stage("MC_two_arrays.cfg", 300, 3000, 0, 100, workers=14),
           "mc_three": mc_stage("MC_three.cfg", 300, 3000, 0, 100, workers=14),
           "mc_objapi": mc_stage("MC_objapi.cfg", 200, 2000, 0, 50, workers=14),
+          "mc_cache": mc_stage("MC_cache.cfg", 200, 3000, 0, 50, workers=14),
           "mc_chain": st_mc_chain, "selftest_binding": st_selftest_binding, "specmutants": st_specmutants,
           "kv": st_kv, "multi_config": multi_stage("config"), "multi_backend": multi_stage("backend")}
 
